@@ -9,6 +9,7 @@ package main
 
 import (
 	"fmt"
+	"sort"
 	"strings"
 
 	"golang.org/x/tools/go/ssa"
@@ -305,7 +306,8 @@ func (x *Exec) mergeStates(base *scriptNode, c Term, a, b, orig *State) *State {
 	// frames
 	for i := range a.frames {
 		fa, fb, fm := a.frames[i], b.frames[i], m.frames[i]
-		for k, va := range fa.regs {
+		for _, k := range sortedRegs(fa.regs) {
+			va := fa.regs[k]
 			if vb, has := fb.regs[k]; has {
 				fm.regs[k] = mv(va, vb, "m_"+k.Name())
 			}
@@ -333,7 +335,8 @@ func (x *Exec) mergeStates(base *scriptNode, c Term, a, b, orig *State) *State {
 		}
 	}
 	// cells
-	for k, va := range a.cells {
+	for _, k := range sortedCells(a.cells) {
+		va := a.cells[k]
 		if vb, has := b.cells[k]; has {
 			m.cells[k] = mv(va, vb, "m_"+k.name)
 		}
@@ -351,7 +354,7 @@ func (x *Exec) mergeStates(base *scriptNode, c Term, a, b, orig *State) *State {
 	for k := range b.heap {
 		keys[k] = true
 	}
-	for k := range keys {
+	for _, k := range sortedKeys(keys) {
 		ta, hasA := a.heap[k]
 		tb, hasB := b.heap[k]
 		switch {
@@ -376,7 +379,8 @@ func (x *Exec) mergeStates(base *scriptNode, c Term, a, b, orig *State) *State {
 		}
 	}
 	// ghost
-	for k, ga := range a.ghost {
+	for _, k := range sortedKeys(a.ghost) {
+		ga := a.ghost[k]
 		if gb, has := b.ghost[k]; has && ga.S != gb.S {
 			m.ghost[k] = m.def("mG_"+k, tIte(c, ga, gb))
 		}
@@ -527,4 +531,36 @@ func (x *Exec) mergeVal(m *State, c Term, va, vb Val, hint string) (Val, bool) {
 		return va, true
 	}
 	return va, false
+}
+
+// deterministic iteration orders (the query text must not depend on Go's map order: solver time does)
+func sortedRegs(m map[ssa.Value]Val) []ssa.Value {
+	out := make([]ssa.Value, 0, len(m))
+	for k := range m {
+		out = append(out, k)
+	}
+	sort.Slice(out, func(i, j int) bool {
+		if out[i].Pos() != out[j].Pos() {
+			return out[i].Pos() < out[j].Pos()
+		}
+		if out[i].Name() != out[j].Name() {
+			return out[i].Name() < out[j].Name()
+		}
+		return out[i].String() < out[j].String()
+	})
+	return out
+}
+
+func sortedCells(m map[*Cell]Val) []*Cell {
+	out := make([]*Cell, 0, len(m))
+	for k := range m {
+		out = append(out, k)
+	}
+	sort.Slice(out, func(i, j int) bool {
+		if out[i].name != out[j].name {
+			return out[i].name < out[j].name
+		}
+		return out[i].id < out[j].id
+	})
+	return out
 }
